@@ -17,13 +17,13 @@ def typed_stmts(rng, tier):
     for i in range(n):
         k = i % 4
         if k == 0:
-            out.append({"kind": "select", "calls": [{"op": "column", "c": "id"}, {"op": "expr_as", "e": v(), "a": "v"}, {"op": "from", "t": ["t1"]},
+            out.append({"kind": "select", "calls": [{"op": "column", "n": "id"}, {"op": "expr_as", "e": v(), "a": "v"}, {"op": "from", "t": ["t1"]},
                         {"op": "and_where", "e": {"k": "bin", "op": "Or", "l": {"k": "bin", "op": "Equal", "l": {"k": "col", "n": "c"}, "r": v()}, "r": {"k": "bin", "op": "NotEqual", "l": v(), "r": v()}}},
                         {"op": "order_by", "e": {"k": "col", "n": "id"}, "o": {"d": "Asc"}}]})
         elif k == 1:
             out.append({"kind": "insert", "calls": [{"op": "into_table", "t": ["t1"]}, {"op": "columns", "cols": ["a", "c"]}, {"op": "values_panic", "row": [v(), v()]}, {"op": "values_panic", "row": [v(), v()]}]})
         elif k == 2:
-            out.append({"kind": "update", "calls": [{"op": "table", "t": ["t1"]}, {"op": "value", "c": "c", "e": v()}, {"op": "and_where", "e": {"k": "in", "neg": False, "e": {"k": "col", "n": "c"}, "vs": [v(), v(), v()]}}]})
+            out.append({"kind": "update", "calls": [{"op": "table", "t": ["t1"]}, {"op": "value", "col": "c", "e": v()}, {"op": "and_where", "e": {"k": "in", "neg": False, "e": {"k": "col", "n": "c"}, "vs": [v(), v(), v()]}}]})
         else:
             out.append({"kind": "select", "calls": [{"op": "expr", "e": {"k": "case", "whens": [{"c": {"k": "bin", "op": "Equal", "l": v(), "r": v()}, "r": v()}], "else": v()}},
                         {"op": "expr", "e": {"k": "fn", "f": "Coalesce", "args": [v(), v()]}}]})
